@@ -5,37 +5,39 @@ package h
 
 // Registry maps harness names to functions taking the integer bounds.
 var Registry = map[string]func(args []int64){
-	"H_Smoke":     func(a []int64) { H_Smoke(int(a[0])) },
-	"H_C09":       func(a []int64) { H_C09(int(a[0]), int(a[1])) },
-	"H_C14seq":    func(a []int64) { H_C14seq(int(a[0]), int(a[1])) },
-	"H_C14par":    func(a []int64) { H_C14par(int(a[0]), int(a[1]), int(a[2])) },
-	"H_C14parse":  func(a []int64) { H_C14parse(int(a[0]), int(a[1])) },
-	"H_C15":       func(a []int64) { H_C15(int(a[0]), int(a[1])) },
-	"H_C12":       func(a []int64) { H_C12(int(a[0]), int(a[1])) },
-	"H_C13a":      func(a []int64) { H_C13a(int(a[0]), int(a[1])) },
-	"H_C12tok":    func(a []int64) { H_C12tok(int(a[0]), int(a[1])) },
-	"H_C13atok":   func(a []int64) { H_C13atok(int(a[0]), int(a[1])) },
-	"H_Probe":     func(a []int64) { H_Probe(int(a[0])) },
-	"H_C08":       func(a []int64) { H_C08(int(a[0]), int(a[1])) },
-	"H_C08seed":   func(a []int64) { H_C08seed(int(a[0]), int(a[1])) },
-	"H_C13b":      func(a []int64) { H_C13b(int(a[0]), int(a[1])) },
-	"H_C13seed":   func(a []int64) { H_C13seed(int(a[0]), int(a[1])) },
-	"H_C01":       func(a []int64) { H_C01(int(a[0]), int(a[1])) },
-	"H_C06":       func(a []int64) { H_C06(int(a[0])) },
-	"H_C06ops":    func(a []int64) { H_C06ops(int(a[0])) },
-	"H_C02":       func(a []int64) { H_C02(int(a[0]), int(a[1])) },
-	"H_C03":       func(a []int64) { H_C03(int(a[0]), int(a[1]), int(a[2]), int(a[3])) },
-	"H_C03two":    func(a []int64) { H_C03two(int(a[0]), int(a[1])) },
-	"H_C04":       func(a []int64) { H_C04(int(a[0]), int(a[1])) },
-	"H_C05":       func(a []int64) { H_C05(int(a[0]), int(a[1])) },
-	"H_C05seed":   func(a []int64) { H_C05seed(int(a[0]), int(a[1])) },
-	"H_C05names":  func(a []int64) { H_C05names(int(a[0])) },
-	"H_C07":       func(a []int64) { H_C07(int(a[0]), int(a[1])) },
-	"H_C07ladder": func(a []int64) { H_C07ladder(int(a[0]), int(a[1])) },
-	"H_C07seed":   func(a []int64) { H_C07seed(int(a[0]), int(a[1])) },
-	"H_C07layout": func(a []int64) { H_C07layout(int(a[0])) },
-	"H_C10":       func(a []int64) { H_C10(int(a[0]), int(a[1])) },
-	"H_C10seed":   func(a []int64) { H_C10seed(int(a[0]), int(a[1])) },
-	"H_C11":       func(a []int64) { H_C11(int(a[0]), int(a[1])) },
-	"H_C11seed":   func(a []int64) { H_C11seed(int(a[0]), int(a[1])) },
+	"H_Smoke":      func(a []int64) { H_Smoke(int(a[0])) },
+	"H_C09":        func(a []int64) { H_C09(int(a[0]), int(a[1])) },
+	"H_C14seq":     func(a []int64) { H_C14seq(int(a[0]), int(a[1])) },
+	"H_C14par":     func(a []int64) { H_C14par(int(a[0]), int(a[1]), int(a[2])) },
+	"H_C14parse":   func(a []int64) { H_C14parse(int(a[0]), int(a[1])) },
+	"H_C15":        func(a []int64) { H_C15(int(a[0]), int(a[1])) },
+	"H_C12":        func(a []int64) { H_C12(int(a[0]), int(a[1])) },
+	"H_C13a":       func(a []int64) { H_C13a(int(a[0]), int(a[1])) },
+	"H_C12tok":     func(a []int64) { H_C12tok(int(a[0]), int(a[1])) },
+	"H_C13atok":    func(a []int64) { H_C13atok(int(a[0]), int(a[1])) },
+	"H_Probe":      func(a []int64) { H_Probe(int(a[0])) },
+	"H_C08":        func(a []int64) { H_C08(int(a[0]), int(a[1])) },
+	"H_C08seed":    func(a []int64) { H_C08seed(int(a[0]), int(a[1])) },
+	"H_C13b":       func(a []int64) { H_C13b(int(a[0]), int(a[1])) },
+	"H_C13seed":    func(a []int64) { H_C13seed(int(a[0]), int(a[1])) },
+	"H_C01":        func(a []int64) { H_C01(int(a[0]), int(a[1])) },
+	"H_C06":        func(a []int64) { H_C06(int(a[0])) },
+	"H_C06ops":     func(a []int64) { H_C06ops(int(a[0])) },
+	"H_C02":        func(a []int64) { H_C02(int(a[0]), int(a[1])) },
+	"H_C03":        func(a []int64) { H_C03(int(a[0]), int(a[1]), int(a[2]), int(a[3])) },
+	"H_C03two":     func(a []int64) { H_C03two(int(a[0]), int(a[1])) },
+	"H_C04":        func(a []int64) { H_C04(int(a[0]), int(a[1])) },
+	"H_C05":        func(a []int64) { H_C05(int(a[0]), int(a[1])) },
+	"H_C05seed":    func(a []int64) { H_C05seed(int(a[0]), int(a[1])) },
+	"H_C05names":   func(a []int64) { H_C05names(int(a[0])) },
+	"H_C07":        func(a []int64) { H_C07(int(a[0]), int(a[1])) },
+	"H_C07ladder":  func(a []int64) { H_C07ladder(int(a[0]), int(a[1])) },
+	"H_C07seed":    func(a []int64) { H_C07seed(int(a[0]), int(a[1])) },
+	"H_C07layout":  func(a []int64) { H_C07layout(int(a[0])) },
+	"H_C10":        func(a []int64) { H_C10(int(a[0]), int(a[1])) },
+	"H_C10err":     func(a []int64) { H_C10err(int(a[0]), int(a[1])) },
+	"H_C10errseed": func(a []int64) { H_C10errseed(int(a[0]), int(a[1])) },
+	"H_C10seed":    func(a []int64) { H_C10seed(int(a[0]), int(a[1])) },
+	"H_C11":        func(a []int64) { H_C11(int(a[0]), int(a[1])) },
+	"H_C11seed":    func(a []int64) { H_C11seed(int(a[0]), int(a[1])) },
 }
